@@ -116,6 +116,13 @@ func c11Run(c c11Case) (out c11Outcome, sig string, err error) {
 			err = fmt.Errorf("image (type %02x, rom code %02x, ram code %02x, %d bytes) was accepted, then %s panicked: %v at %s", c.Spec.CartType, c.Spec.RomSize, c.Spec.RamSize, len(img), step, r, w)
 		}
 	}()
+	// Direct "w"/"r" ops stand for data accesses of a guest program. The
+	// earliest machine cycle in which a guest can make one is the second (the
+	// first is the opcode fetch at 0100), so the hardware has always advanced
+	// at least once before it; an access injected before the very first
+	// hardware cycle would be a state no guest program can produce.
+	step = "power-on hardware cycle"
+	m.HW()
 	for i, op := range c.Ops {
 		out.Steps++
 		switch op.Kind {
